@@ -26,8 +26,21 @@ const (
 
 type pbind struct {
 	name string
-	ty   pty
+	ty   pty // may carry the pAttr flag
 }
+
+// pAttr (a flag on pbind.ty): not a binding of the program text but an attribute of the implicit
+// argument map (C16). A reference is emitted as attrMark+name+attrMark; the harness spells it `name`
+// (map mode) or `m.name` (explicit). A nearer binding of the same name shadows it as usual.
+// (A flag instead of a struct field: positional pbind literals of the other harnesses keep compiling.)
+const pAttr pty = 1 << 8
+
+func (b pbind) attr() bool { return b.ty&pAttr != 0 }
+
+const attrMark = "§"
+
+// pHidden: the type of a binding that only hides outer bindings of its name (never referenced)
+const pHidden pty = 127
 
 type progGen struct {
 	r *rand.Rand
@@ -39,6 +52,10 @@ type progGen struct {
 	shadowNames bool    // allow binder names that shadow outer binders / static functions
 	noThrow     bool
 	features    map[string]int
+	// C16: names no generated binder may take (the name of the implicit map); with attrMode a func
+	// hides outer bindings of its own name inside its body (there the name denotes the func itself)
+	reserved map[string]bool
+	attrMode bool
 }
 
 func newProgGen(r *rand.Rand) *progGen {
@@ -72,7 +89,7 @@ func (g *progGen) fresh(sc []pbind) string {
 			g.n++
 			nm = fmt.Sprintf("v%d", g.n)
 		}
-		if cur[nm] {
+		if cur[nm] || g.reserved[nm] {
 			continue
 		}
 		// inside the top-level body the argument names are declared already
@@ -85,6 +102,22 @@ func (g *progGen) fresh(sc []pbind) string {
 	return nm
 }
 
+// freshFunc: the name of a func. With attrMode it never is the name of a static function: the body
+// may call that static function, which would then be an unbounded recursion of the func.
+func (g *progGen) freshFunc(sc []pbind) string {
+	nm := g.fresh(sc)
+	if g.attrMode {
+		for _, s := range staticNamesPool {
+			if s == nm {
+				g.n++
+				nm = fmt.Sprintf("v%d", g.n)
+				g.used[len(g.used)-1][nm] = true
+			}
+		}
+	}
+	return nm
+}
+
 func (g *progGen) vars(sc []pbind, t pty) []string {
 	var res []string
 	seen := map[string]bool{}
@@ -93,8 +126,12 @@ func (g *progGen) vars(sc []pbind, t pty) []string {
 			continue
 		}
 		seen[sc[i].name] = true
-		if sc[i].ty == t {
-			res = append(res, sc[i].name)
+		if sc[i].ty&^pAttr == t {
+			if sc[i].attr() {
+				res = append(res, attrMark+sc[i].name+attrMark)
+			} else {
+				res = append(res, sc[i].name)
+			}
 		}
 	}
 	return res
@@ -128,10 +165,14 @@ func (g *progGen) stmt(t pty, d int, sc []pbind) string {
 		return fmt.Sprintf("let %s = %s; %s", nm, val, g.stmt(t, d-1, append(sc[:len(sc):len(sc)], pbind{nm, vt})))
 	case 3:
 		// func, possibly recursive on a decreasing counter
-		fn := g.fresh(sc)
+		fn := g.freshFunc(sc)
 		prm := g.paramName(sc)
 		g.enterBody(prm)
 		inner := append(sc[:len(sc):len(sc)], pbind{prm, pInt})
+		if g.attrMode {
+			// AddThis is layered above AddArgs: inside the body the name is the func
+			inner = append(inner, pbind{fn, pHidden})
+		}
 		var body string
 		if g.r.Intn(2) == 0 {
 			g.feat("func-recursive")
@@ -152,7 +193,9 @@ func (g *progGen) stmt(t pty, d int, sc []pbind) string {
 func (g *progGen) paramName(sc []pbind) string {
 	if g.shadowNames && g.r.Intn(3) == 0 && len(sc) > 0 {
 		// shadow an outer binding on purpose
-		return sc[g.r.Intn(len(sc))].name
+		if nm := sc[g.r.Intn(len(sc))].name; !g.reserved[nm] {
+			return nm
+		}
 	}
 	if g.shadowNames && g.r.Intn(30) == 0 {
 		return staticNamesPool[g.r.Intn(len(staticNamesPool))]
